@@ -68,52 +68,76 @@ Theorem C13_at_most_once : forall evs, invalid_count evs <= 1.
 Proof. exact at_most_once. Qed.
 Print Assumptions C13_at_most_once.
 
-(* ---- first half of the property on traces (guarded: see the refutation below) *)
-Theorem C13_accept_partial : forall f more rest, stamps_ok f = true ->
-  forallb is_block_ev more = true -> first_not_comment rest = true ->
-  invalid_count (header_events f ++ more ++ rest) = 0.
-Proof. exact accept_partial. Qed.
-Print Assumptions C13_accept_partial.
+(* ---- first half of the property on traces: NO guard on what follows the header.
+   What the machine does with it: further block comments that start in column 1 are appended to the header
+   text (the search still succeeds); the first statement of any other kind - code, an empty line, a // comment,
+   a comment after blanks - triggers the single check, which succeeds; at end of file nothing is checked. *)
+Theorem C13_accept : forall f rest, stamps_ok f = true -> invalid_count (header_events f ++ rest) = 0.
+Proof. exact accept. Qed.
+Print Assumptions C13_accept.
 
-(* finding C13-comment-after-header: a // comment (or an indented comment) directly below a perfect header *)
-Theorem C13_accept_refuted_comment_after_header :
-  exists f rest, fields_ok f = true /\ invalid_count (header_events f ++ rest) = 1.
-Proof. exact accept_refuted_comment_after_header. Qed.
-Print Assumptions C13_accept_refuted_comment_after_header.
+(* the repaired finding C13-comment-after-header, as a positive statement *)
+Theorem C13_accept_comment_after_header : forall f x rest, stamps_ok f = true ->
+  invalid_count (header_events f ++ line_comment_event x :: rest) = 0.
+Proof. exact accept_comment_after_header. Qed.
+Print Assumptions C13_accept_comment_after_header.
 
-(* ---- second half: each mutation gives exactly one diagnostic, for all field values *)
+Theorem C13_accept_trace : forall b0 blocks rest,
+  forallb is_block_ev (b0 :: blocks) = true ->
+  searches header_re (lines_text (map ev_tok_value (b0 :: blocks))) ->
+  invalid_count ((b0 :: blocks) ++ rest) = 0.
+Proof. exact accept_trace. Qed.
+Print Assumptions C13_accept_trace.
+
+(* ---- second half: each mutation gives exactly one diagnostic, for all field values.
+   `is_block_ev ev = false`: the statement after the leading block comments is anything but a block comment in
+   column 1 (code, empty line, preprocessor line, // comment, comment after blanks). *)
 Theorem C13_reject_Hm1_Hm2_Hm3 : forall ev rest, is_comment_ev ev = false -> invalid_count (ev :: rest) = 1.
 Proof. exact reject_first_not_comment. Qed.
 Print Assumptions C13_reject_Hm1_Hm2_Hm3.
+
+Theorem C13_reject_first_not_block : forall ev rest, is_block_ev ev = false -> invalid_count (ev :: rest) = 1.
+Proof. exact reject_first_not_block. Qed.
+Print Assumptions C13_reject_first_not_block.
 
 Theorem C13_reject_Hm4 : forall f rest, invalid_count (hm4_events f ++ rest) = 1.
 Proof. exact reject_Hm4. Qed.
 Print Assumptions C13_reject_Hm4.
 
-Theorem C13_reject_not_block : forall blocks ev rest, forallb is_block_ev blocks = true ->
-  is_comment_ev ev = true -> str_eqb (ev_tok_type ev) MULT_COMMENT = false ->
-  invalid_count (blocks ++ ev :: rest) = 1.
-Proof. exact reject_not_block. Qed.
-Print Assumptions C13_reject_not_block.
+Theorem C13_reject_line_as_line_comment : forall k f rest, k < 11 -> fields_plain f = true ->
+  invalid_count (hm4k_events k f ++ rest) = 1.
+Proof. exact reject_line_as_line_comment. Qed.
+Print Assumptions C13_reject_line_as_line_comment.
 
-Theorem C13_reject_Hm5 : forall f ev rest, fields_plain f = true -> is_comment_ev ev = false ->
+Theorem C13_reject_line_comment_above : forall x f rest,
+  invalid_count (line_comment_event x :: header_events f ++ rest) = 1.
+Proof. exact reject_line_comment_above. Qed.
+Print Assumptions C13_reject_line_comment_above.
+
+Theorem C13_reject_text : forall b0 blocks ev rest, forallb is_block_ev (b0 :: blocks) = true ->
+  is_block_ev ev = false -> ~ searches header_re (lines_text (map ev_tok_value (b0 :: blocks))) ->
+  invalid_count ((b0 :: blocks) ++ ev :: rest) = 1.
+Proof. exact reject_text. Qed.
+Print Assumptions C13_reject_text.
+
+Theorem C13_reject_Hm5 : forall f ev rest, fields_plain f = true -> is_block_ev ev = false ->
   invalid_count (hm5_events f ++ ev :: rest) = 1.
 Proof. exact reject_Hm5. Qed.
 Print Assumptions C13_reject_Hm5.
 
-Theorem C13_reject_Hm6 : forall k f ev rest, (k < 11)%nat -> fields_plain f = true -> is_comment_ev ev = false ->
+Theorem C13_reject_Hm6 : forall k f ev rest, k < 11 -> fields_plain f = true -> is_block_ev ev = false ->
   invalid_count (map comment_event (hm6_lines k f) ++ ev :: rest) = 1.
 Proof. exact reject_Hm6. Qed.
 Print Assumptions C13_reject_Hm6.
 
-Theorem C13_reject_Hm7 : forall last n f ev rest, n <> 74%nat -> fields_plain f = true -> is_comment_ev ev = false ->
+Theorem C13_reject_Hm7 : forall last n f ev rest, n <> 74 -> fields_plain f = true -> is_block_ev ev = false ->
   invalid_count (map comment_event (hm7_lines last n f) ++ ev :: rest) = 1.
 Proof. exact reject_Hm7. Qed.
 Print Assumptions C13_reject_Hm7.
 
-Theorem C13_reject_Hm8 : forall k x f ev rest, (k = 5 \/ k = 7 \/ k = 8)%nat -> fields_plain f = true ->
+Theorem C13_reject_Hm8 : forall k x f ev rest, (k = 5 \/ k = 7 \/ k = 8) -> fields_plain f = true ->
   no_char 42 x = true -> starts_with (keyword_of k) (textline x (art_of k)) = false ->
-  is_comment_ev ev = false ->
+  is_block_ev ev = false ->
   invalid_count (map comment_event (hm8_lines k x f) ++ ev :: rest) = 1.
 Proof. exact reject_Hm8. Qed.
 Print Assumptions C13_reject_Hm8.
@@ -143,5 +167,7 @@ Print Assumptions C13_reject_refuted_comments_only.
 Example C13_example :
   template hud_fields = sample_header_1012 /\ fields_ok hud_fields = true /\
   invalid_count (header_events hud_fields ++ [empty_line_event; code_event]) = 0%nat /\
-  invalid_count (map comment_event (hm7_lines true 73 hud_fields) ++ [empty_line_event]) = 1%nat.
+  invalid_count (map comment_event (hm7_lines true 73 hud_fields) ++ [empty_line_event]) = 1%nat /\
+  invalid_count (header_events hud_fields ++ [line_comment_event (s " note"); empty_line_event; code_event]) = 0%nat /\
+  invalid_count (hm4k_events 5 hud_fields ++ [empty_line_event]) = 1%nat.
 Proof. repeat split; vm_compute; reflexivity. Qed.
